@@ -13,6 +13,7 @@ validate, nothing crashes.
 import json
 import os
 import random
+import re
 
 import lib
 
@@ -38,6 +39,12 @@ def emit_cases(ctx, cfg, simulate=0, depth=None):
         if dead:
             raise lib.Machinery(f"ComptimeOwn.tla: actions never taken (vacuous model): {dead}")
         ctx.coverage.setdefault("tlc_action_coverage", {})[cfg] = acts
+    if simulate:
+        m = re.search(r"The number of states generated: (\d+)", r.out)
+        if m:  # simulation mode does not print the model-checking summary lib.tlc parses
+            ctx.states += int(m.group(1))
+            ctx.transitions += int(m.group(1))
+            ctx.coverage["tlc_runs"][-1]["generated"] = int(m.group(1))
     cases = [p for p in r.printed if isinstance(p, dict) and "verdict" in p]
     if not cases:
         raise lib.Machinery(f"{cfg}: no cases emitted\n" + r.out[-1500:])
